@@ -2,6 +2,7 @@ mod desc;
 mod engine;
 mod fmts;
 mod gen;
+mod plan;
 mod props;
 mod strgen;
 
@@ -9,7 +10,7 @@ use engine::*;
 use std::path::PathBuf;
 
 fn registry() -> Vec<&'static Prop> {
-    vec![&props::c01::PROP, &props::c04::PROP]
+    vec![&props::c01::PROP, &props::c04::PROP, &props::c06::PROP, &props::c07::PROP]
 }
 
 fn main() {
